@@ -185,7 +185,7 @@ fn build(ch: &mut Chooser, fmt: &'static str, thorough: bool) -> PCase {
         refs.push(VRef { name: ["stdole", "Office", "MSForms"][i].to_string(), kind });
     }
     let project = VProject { codepage: cp, modules, refs, compat_version: ch.flag("compat-version-record"), descriptive: ch.flag("project-description-helpfile-constants-non-empty") };
-    let lay = cfb::Layout { v4: ch.flag("cfb.v4"), order: ch.pick("cfb.order", &[cfb::Order::Sequential, cfb::Order::Reversed, cfb::Order::Interleaved]), dir_reversed: ch.flag("cfb.dir-reversed"), ..Default::default() };
+    let lay = cfb::Layout { v4: ch.flag("cfb.v4"), order: ch.pick("cfb.order", &[cfb::Order::Sequential, cfb::Order::Reversed, cfb::Order::Interleaved]), dir_reversed: ch.flag("cfb.dir-reversed"), name_garbage: ch.flag("cfb.stale-bytes-after-name-terminator"), ..Default::default() };
     let bytes = match fmt {
         "xls" => {
             let mut stream = biff8::workbook_stream(&biff8::BBook { sheets: vec![biff8::BSheet::new("S", vec![biff8::BCell::Number { r: 0, c: 0, xf: 0, v: 1.0 }])], ..Default::default() });
